@@ -5,4 +5,4 @@ from vlib import c02xy
 ID = "C02XY_TMP"
 RULE = c02xy.RULE
 ASSUMPTIONS = c02xy.ASSUMPTIONS
-PARTS = [Part("xy", strategy=lambda tier: c02xy.cases(tier), run=c02xy.run_xy, quick=800, thorough=9600)]
+PARTS = [Part("xy", strategy=lambda tier: c02xy.cases(tier), run=c02xy.run_xy, quick=640, thorough=9600)]
